@@ -6,10 +6,10 @@ SOURCE = {}
 CONTRACTS = []
 
 
-def harness(name, params, src, requires=None, loops=None, lemmas=None, ghost_params=None, raises=None, split=None):
+def harness(name, params, src, requires=None, loops=None, lemmas=None, ghost_params=None, raises=None, split=None, self_config=None):
     SOURCE["harness." + name] = src.strip("\n") + "\n"
     CONTRACTS.append(dict(name="harness." + name, params=params, requires=requires or {}, ensures={}, raises=raises or {}, returns="none",
-                          loops=loops or {}, lemmas=lemmas or [], variant_of="harness", ghost_params=ghost_params or {}, split=split or {}))
+                          loops=loops or {}, lemmas=lemmas or [], variant_of="harness", ghost_params=ghost_params or {}, split=split or {}, self_config=self_config or {}))
 
 
 # ---------------------------------------------------------------------------------------------------------------- C16
@@ -718,3 +718,162 @@ def c14_leaf_queries_agree(acc0, k, v, d, p):
     if p < len(from_map):
         assert from_accessor[p] == from_map[p] and from_map[p] == lev(acc0, v, d, p), "the same leaves in the same order: the end points of the d-step walks"
 ''', requires={"graph": "k >= 1 and is_accessor(acc0, k)", "vertex": "v < ipow(4, k)"}, ghost_params={"k": "nat"})
+
+
+# ---------------------------------------------------------------------------------------------------------------- C12 (window lemma, both directions)
+# occurs(m, s) is Python's `m in s`; occ_elim / occ_intro are the two directions of its definition (some position matches), see pyvc/calls.py.
+NOT_IN_WINDOW = """
+    if occurs(%(x)s, win):
+        occ_elim(%(x)s, win)
+        occ_intro(%(x)s, s, w + occ_pos(%(x)s, win))
+"""
+IN_SOME_WINDOW = """
+    if occurs(%(x)s, s):
+        occ_elim(%(x)s, s)
+        p = occ_pos(%(x)s, s)
+        w = min(p, n - k)
+        mark(w)
+        occ_intro(%(x)s, s[w:w + k], p - w)
+    assert not occurs(%(x)s, s), "absent from the whole sequence"
+"""
+
+
+def _forbidden(run, motifs):
+    xs = ["run_of(f, '%s')" % ch for ch in "ACGT"] if run else []
+    for j in range(motifs or 0):
+        xs += ["f.undesired_motifs[%d]" % j, "rc_code(f.undesired_motifs[%d])" % j]
+    return xs
+
+
+def _shape(run, gc, motifs):
+    return "%s_%s_%s" % ("run" if run else "norun", "gc" if gc else "nogc", "none" if motifs is None else str(motifs))
+
+
+def c12_window_of_valid(run, gc, motifs):
+    """an accepted sequence has only accepted windows (no side condition needed for this direction)"""
+    name = "c12_window_of_valid_" + _shape(run, gc, motifs)
+    src = """
+def %s(f, s, w):
+    k = f.observed_length
+    win = s[w:w + k]
+    mark(w)
+    mark(0)
+%s
+    assert filter_ok(f, win), "every window of an accepted sequence is accepted"
+""" % (name, "".join(NOT_IN_WINDOW % {"x": x} for x in _forbidden(run, motifs)) or "    pass")
+    req = {"accepted": "filter_ok(f, s)", "window": "w + f.observed_length <= len(s)"}
+    harness(name, {"f": "obj:LocalBioFilter", "s": "str", "w": "nat"}, src, requires=req, self_config={"run": run, "gc": gc, "motifs": motifs})
+
+
+def c12_valid_of_windows(run, gc, motifs):
+    """a sequence at least one window long, all of whose windows are accepted by a window-decidable configuration, is accepted"""
+    name = "c12_valid_of_windows_" + _shape(run, gc, motifs)
+    gc_part = ("    g = 0\n    while g < n - k + 1:\n        mark(g)\n        assert len(s[g:g + k]) == k, 'window length'\n"
+               "        assert gc_window_ok(f, s[g:g + k], 0), 'the window, seen as a sequence of one window'\n"
+               "        assert gc_window_ok(f, s, g), 'the same window of the whole sequence'\n        g += 1\n"
+               "    assert forall(lambda w: gc_window_ok(f, s, w), 0, n - k + 1, lambda w: here(w)), 'every window has an admissible G+C count'") if gc else "    pass"
+    src = """
+def %s(f, s):
+    k = f.observed_length
+    n = len(s)
+    mark(0)
+    q = 0
+    while q < n:
+        mark(min(q, n - k))
+        assert is_dna(s, q, q + 1), "this character lies in an accepted window"
+        q += 1
+    assert is_dna(s), "only A, C, G, T"
+%s
+%s
+    assert filter_ok(f, s), "a sequence all of whose windows are accepted is accepted"
+""" % (name, "".join(IN_SOME_WINDOW % {"x": x} for x in _forbidden(run, motifs)) or "    pass", gc_part)
+    req = {"long-enough": "len(s) >= f.observed_length",
+           "every-window-accepted": "forall(lambda w: filter_ok(f, s[w:w + f.observed_length]), 0, len(s) - f.observed_length + 1, lambda w: here(w))"}
+    dec = []
+    if run:
+        dec.append("f.max_homopolymer_runs < f.observed_length and f.max_homopolymer_runs >= 0")
+    for j in range(motifs or 0):
+        dec.append("len(f.undesired_motifs[%d]) <= f.observed_length" % j)
+    if dec:
+        req["window-decidable"] = " and ".join(dec)
+    loops = {1: dict(invariant={"range": "0 <= q <= n", "letters-so-far": "is_dna(s, 0, q)"}, variant="n - q")}
+    if gc:
+        loops[2] = dict(invariant={"range": "0 <= g <= n - k + 1", "windows-so-far": "forall(lambda w: gc_window_ok(f, s, w), 0, g, lambda w: here(w))"},
+                        variant="n - k + 1 - g")
+    harness(name, {"f": "obj:LocalBioFilter", "s": "str"}, src, requires=req, self_config={"run": run, "gc": gc, "motifs": motifs}, loops=loops)
+
+
+C12_SHAPES = [(r, g, m) for r in (False, True) for g in (False, True) for m in (None, 0, 1, 2)]
+for _r, _g, _m in C12_SHAPES:
+    c12_window_of_valid(_r, _g, _m)
+    c12_valid_of_windows(_r, _g, _m)
+
+
+# ---------------------------------------------------------------------------------------------------------------- C12 (reverse-complement invariance, A/C/G/T motifs)
+MIRRORED = """
+    if occurs(%(x)s, t):
+        occ_elim(%(x)s, t)
+        occ_intro(%(y)s, s, n - occ_pos(%(x)s, t) - len(%(x)s))
+    assert not occurs(%(x)s, t), "absent from the reverse complement"
+"""
+
+
+def c12_revcomp(run, gc, motifs):
+    """t is the reverse complement of the A/C/G/T string s (and s of t): an accepted s has an accepted t.  Applied to (s, t) and to (t, s): equal verdicts."""
+    name = "c12_revcomp_" + _shape(run, gc, motifs)
+    pairs = []
+    if run:
+        pairs += [("run_of(f, 'A')", "run_of(f, 'T')"), ("run_of(f, 'T')", "run_of(f, 'A')"), ("run_of(f, 'C')", "run_of(f, 'G')"), ("run_of(f, 'G')", "run_of(f, 'C')")]
+    for j in range(motifs or 0):
+        pairs += [("f.undesired_motifs[%d]" % j, "rc_code(f.undesired_motifs[%d])" % j), ("rc_code(f.undesired_motifs[%d])" % j, "f.undesired_motifs[%d]" % j)]
+    body = "".join(MIRRORED % {"x": x, "y": y} for x, y in pairs) or "    pass"
+    if gc:
+        gc_part = """
+    if n >= k:
+        g = 0
+        while g < n - k + 1:
+            mark(g)
+            mark(n - k - g)
+            cnt_revcomp(A(t), P(t, 0), A(s), P(s, 0), n, g, k, 67)
+            cnt_revcomp(A(t), P(t, 0), A(s), P(s, 0), n, g, k, 71)
+            assert gc_window_ok(f, s, n - k - g), "the mirrored window of the accepted sequence"
+            assert gc_window_ok(f, t, g), "the same G+C count"
+            g += 1
+        assert forall(lambda w: gc_window_ok(f, t, w), 0, n - k + 1, lambda w: here(w)), "every window of the reverse complement"
+    else:
+        cnt_revcomp(A(t), P(t, 0), A(s), P(s, 0), n, 0, n, 65)
+        cnt_revcomp(A(t), P(t, 0), A(s), P(s, 0), n, 0, n, 67)
+        cnt_revcomp(A(t), P(t, 0), A(s), P(s, 0), n, 0, n, 71)
+        cnt_revcomp(A(t), P(t, 0), A(s), P(s, 0), n, 0, n, 84)
+"""
+    else:
+        gc_part = "    pass"
+    src = """
+def %s(f, s, t):
+    k = f.observed_length
+    n = len(s)
+    mark(0)
+    q = 0
+    while q < n:
+        assert is_dna(t, q, q + 1), "the complement of a nucleotide is a nucleotide"
+        q += 1
+    assert is_dna(t), "only A, C, G, T"
+%s
+%s
+    assert filter_ok(f, t), "the reverse complement of an accepted sequence is accepted"
+""" % (name, body, gc_part)
+    req = {"strings": "is_dna(s) and len(t) == len(s)",
+           "mirror": "forall(lambda j: chr_(t[j]) == comp(s[len(s) - 1 - j]), 0, len(s), lambda j: t[j]) and "
+                     "forall(lambda j: chr_(s[j]) == comp(t[len(s) - 1 - j]), 0, len(s), lambda j: s[j])",
+           "accepted": "filter_ok(f, s)"}
+    if motifs:
+        req["nucleotide-motifs"] = " and ".join("is_dna(f.undesired_motifs[%d])" % j for j in range(motifs))
+    loops = {1: dict(invariant={"range": "0 <= q <= n", "letters-so-far": "is_dna(t, 0, q)"}, variant="n - q")}
+    if gc:
+        loops[2] = dict(invariant={"range": "0 <= g <= n - k + 1", "windows-so-far": "forall(lambda w: gc_window_ok(f, t, w), 0, g, lambda w: here(w))"},
+                        variant="n - k + 1 - g")
+    harness(name, {"f": "obj:LocalBioFilter", "s": "str", "t": "str"}, src, requires=req, self_config={"run": run, "gc": gc, "motifs": motifs}, loops=loops)
+
+
+for _r, _g, _m in C12_SHAPES:
+    c12_revcomp(_r, _g, _m)
